@@ -55,7 +55,11 @@ check("C05",
       "to compressor.py/py7zr.py by scripted-decoder correspondence (calls and whole loops incl. the stall guard); the "
       "header parser model by the mutated-header stream. Time/memory themselves are measured: sandboxed sessions "
       "(10 s, 1.5 GiB, peak RSS) over byte-mutated, structure-mutated (CRC re-sealed, extreme counts, external flags "
-      "with every data index) and wrong-password inputs x call sequences. Partial: wall time and RSS are observations.",
+      "with every data index; coordinated pack/unpack size mutations) and wrong-password inputs x call sequences; a child "
+      "killed under the address-space cap is re-run under a high cap and judged by exit status and RSS. Interpreter "
+      "crashes found this way and repaired in /repo: stale failed decoder, BCJ coder properties (CPython lzma NULL "
+      "dereference); open finding F23: pyppmd's decoder crashes nondeterministically when the header declares more "
+      "output than the stream holds. Partial: wall time and RSS are observations.",
       "Lean 4 termination proof by lexicographic measure over a decoder-parametric model + differential correspondence + sandboxed mutation exploration",
       "DESIGN.md §4 C05")
 check("C20",
@@ -133,7 +137,7 @@ check("C01",
       "(recording cipher) and dec (scripted decoders) streams. The end-to-end claim is explored: member lists x every "
       "supported documented chain (+/-AES) x header mode x path/BytesIO/buffered/multi-volume(64..) x I/O block "
       "{17,64,4096,default} x extraction chunk {1,7,4096,default}, each in a child process. Partial: codec correctness, "
-      "multivolumefile and OS are parameters; F17 is an open known finding.",
+      "multivolumefile and OS are parameters (F17, a tail defect of the bcj library found by this exploration, is worked around in /repo).",
       "Lean 4 invariant proofs (AES residue buffers, carry-over buffer, sub-stream split) + differential correspondence + configuration-grid exploration",
       "DESIGN.md §4 C01")
 check("C10",
